@@ -313,6 +313,7 @@ class Rule(MethodWIGM):
     method = 'wigm' # underlying method
     name = 'mpls'
     quota_name = 'Threshold'
+    excludesUndeclared = True   # undeclared write-ins are never elected (see Election.postCheck)
 
     @classmethod
     def ruleNames(cls):
